@@ -1638,6 +1638,10 @@ impl Vm {
     fn reset_stack(&mut self) {
         if let Some(fiber) = self.fiber.as_ref() {
             let mut borrowed_fiber = fiber.borrow_mut();
+            if borrowed_fiber.stack.len() > 0 {
+                // A closure that outlives the run (one stored in a global) keeps the variables it captured.
+                borrowed_fiber.close_upvalues(0);
+            }
             borrowed_fiber.stack.clear();
             borrowed_fiber.frames.clear();
         }
